@@ -120,6 +120,9 @@ func tmpDir(t *testing.T) string {
 }
 
 // client runs a seeded closed-loop command sequence on private keys.
+// geteOK is set while the deployment under test serves GETE (L1-only, not chunked).
+var geteOK bool
+
 func client(t *testing.T, sock string, id int, proto string, r *rand.Rand, n int, errs chan<- string) {
 	c, err := net.Dial("unix", sock)
 	if err != nil {
@@ -151,6 +154,8 @@ func client(t *testing.T, sock string, id int, proto string, r *rand.Rand, n int
 			op.Keys = []string{op.Key}
 			op.Quiets = []bool{false}
 			op.Key = ""
+			// rend's GETE extension (hits carry the expiry) where it is served
+			op.E = geteOK && proto == "bin" && r.IntN(2) == 0
 		}
 		var data []byte
 		if proto == "text" {
@@ -249,6 +254,7 @@ func TestRaceServer(t *testing.T) {
 		if c.lock {
 			o, _ = orcas.Locked(o, true, 2)
 		}
+		geteOK = !c.l2 && c.name != "chunked"
 		go server.ListenAndServe(server.UnixListener(front), protocols, server.Default, o, c.h1(l1), h2)
 		// wait for the listener
 		for i := 0; i < 200; i++ {
